@@ -21,6 +21,7 @@ from .. import build, core
 from ..core import Result, HarnessBug
 
 ID = "C20"
+ALT_BUILD = True          # a quarter of the workers run the gcc -O0 build (core.py)
 LEVEL = "exploration"
 BUDGET = {"quick": 1500, "thorough": 300000}
 WORKERS = {"quick": 4, "thorough": 16}
